@@ -137,6 +137,24 @@ def build():
             "forall(lambda k: implies(0 <= k and k + 1 < len(result), result[k].source_end < result[k + 1].source_start))",
         ], props=["C14", "C15"])
     cs.append(tok)
+    # ---- the rendering of a token's span (used by every FormulaSyntaxError message)
+    SRC = {"__class__": "Token", "source": "Opt[Str]", "source_start": OINT, "source_end": OINT}
+    for label, col, pre_mid, mid_post in (("plain", "False", "'⧛'", "'⧚'"), ("colorized", "True", "'⧛\x1b[1;31m'", "'\x1b[0m⧚'")):
+        gsc = Contract(
+            "formulaic/parser/types/token.py::Token.get_source_context", params={"self": SRC, "colorize": "Bool"}, returns="Opt[Str]",
+            requires=[f"colorize == {col}",
+                      # a recorded span lies inside the source (proved for every token that tokenize emits, above)
+                      "implies(self.source is not None and self.source_start is not None and self.source_end is not None, "
+                      "0 <= self.source_start and self.source_start <= self.source_end and self.source_end < len(self.source))"],
+            ensures=[
+                "(result is None) == (self.source is None or self.source == '' or self.source_start is None or self.source_end is None)",
+                # the markers enclose exactly the text of the recorded span; what precedes and follows is the rest of the source, unchanged
+                "implies(result is not None, result == self.source[:self.source_start] + " + pre_mid +
+                " + self.source[self.source_start:self.source_end + 1] + " + mid_post + " + self.source[self.source_end + 1:])",
+                "implies(result is not None, len(result) == len(self.source) + len(" + pre_mid + ") + len(" + mid_post + "))",
+            ], modifies=[], props=["C15"])
+        gsc.label = label
+        cs.append(gsc)
     return reg, cs
 
 
